@@ -174,7 +174,18 @@ def run(ctx, with_model=True):
             k = next((i for i, (a, b) in enumerate(zip(model, base)) if a != b), None)
             ctx.tie_break("transcript", {"step": k, "op": ops[k] if k is not None else None,
                                          "impl": base[k] if k is not None else None, "model": model[k] if k is not None else None})
+    if with_model:
+        overlap(ctx, 4 if ctx.tier == "quick" else 40)
+
+
+def overlap(ctx, rounds):
+    """"after any recompile cycle": also one in which a refused recompile (of a long text) overlapped a successful one from another thread"""
+    from props import c17
+    for e in c17.run_failing_recompile_race(ctx, rounds)[:2]:
+        ctx.violation(f"after a recompile cycle in which a refused recompile overlapped a successful one, the evaluator no longer answers as its last accepted text: "
+                      f"{json.dumps(e)[:240]}", e)
 
 
 def search(ctx):
     run(ctx, with_model=False)
+    overlap(ctx, 30)
